@@ -37,6 +37,8 @@
 #include <iostream>
 #endif
 
+#include <algorithm>
+
 #include <OpenVolumeMesh/Core/TopologyKernel.hh>
 #include <OpenVolumeMesh/Core/detail/swap_bool.hh>
 
@@ -361,7 +363,10 @@ void TopologyKernel::reorder_incident_halffaces(EdgeHandle _eh) {
     }
 
     // Everything worked just fine, set the new ordered vector
-    if(new_halffaces.size() == incident_hfs.size()) {
+    // (only if every incident halfface was visited exactly once: in non-manifold
+    //  configurations the walk can visit a halfface twice and miss another one)
+    if(new_halffaces.size() == incident_hfs.size()
+            && std::is_permutation(new_halffaces.begin(), new_halffaces.end(), incident_hfs.begin())) {
         incident_hfs = std::move(new_halffaces);
         // update incident halffaces of the opposite halfedge:
         std::transform(incident_hfs.rbegin(), incident_hfs.rend(),
